@@ -127,9 +127,11 @@ def run(rep: Report, repo: Repo, tier: str) -> None:
     items = list(walk(fn.body))
 
     # ---- locate the execute_process that runs CMinx
-    rep.rule("C19-R1", "every execute_process that runs ${CMINX_EXECUTABLE} fails the configure step when CMinx fails")
-    rep.rule("C19-R2", "its COMMAND is: the executable, the first formal quoted, the options variable expanded unquoted, and "
-                       "'-o' immediately followed by the second formal quoted")
+    with rep.isolated():
+        rep.rule("C19-R1", "every execute_process that runs ${CMINX_EXECUTABLE} fails the configure step when CMinx fails")
+    with rep.isolated():
+        rep.rule("C19-R2", "its COMMAND is: the executable, the first formal quoted, the options variable expanded unquoted, and "
+                           "'-o' immediately followed by the second formal quoted")
     eps = [(c, anc) for c, anc in items if c.name == "execute_process" and any("CMINX_EXECUTABLE" in a.text for a in c.args)]
     rep.check(bool(eps), "C19-R2", where, "execute_process(COMMAND ${CMINX_EXECUTABLE} ...)",
               "cminx_gen_rst never runs the CMinx executable")
@@ -197,8 +199,10 @@ def run(rep: Report, repo: Repo, tier: str) -> None:
     rep.floor("C19-R2", 6, "COMMAND facts")
 
     # ---- -r only for directories; ARGN verbatim
-    rep.rule("C19-R3", "'-r' enters the options only inside if(IS_DIRECTORY <first formal>) without else, and does so")
-    rep.rule("C19-R4", "ARGN is appended to the options unfiltered and in order")
+    with rep.isolated():
+        rep.rule("C19-R3", "'-r' enters the options only inside if(IS_DIRECTORY <first formal>) without else, and does so")
+    with rep.isolated():
+        rep.rule("C19-R4", "ARGN is appended to the options unfiltered and in order")
     r_sites, argn_sites = [], []
     for c, anc in items:
         if c.name in ("list", "set", "string") and c.args:
@@ -259,8 +263,9 @@ def run(rep: Report, repo: Repo, tier: str) -> None:
     rep.floor("C19-R4", 3, "ARGN facts")
 
     # ---- R6 the formals reach the command line as given
-    rep.rule("C19-R6", "the input and output formals are passed on as given: no command in the function rebinds them "
-                       "(set, get_filename_component, file(REAL_PATH), string, cmake_path ... with a formal as result variable)")
+    with rep.isolated():
+        rep.rule("C19-R6", "the input and output formals are passed on as given: no command in the function rebinds them "
+                           "(set, get_filename_component, file(REAL_PATH), string, cmake_path ... with a formal as result variable)")
     n6 = 0
     for c, anc in items:
         if c.name in ("if", "elseif", "else", "endif", "endfunction"):
@@ -276,7 +281,8 @@ def run(rep: Report, repo: Repo, tier: str) -> None:
     rep.floor("C19-R6", 1, "formal-rebinding scan")
 
     # ---- R5 package config
-    rep.rule("C19-R5", "the package config defines CMINX_EXECUTABLE before it includes cminx.cmake; the cminx script is cminx:main")
+    with rep.isolated():
+        rep.rule("C19-R5", "the package config defines CMINX_EXECUTABLE before it includes cminx.cmake; the cminx script is cminx:main")
     tsrc = repo.read("cmake/templates/cminx-config.cmake.in")
     tsrc_clean = tsrc.replace("@PACKAGE_INIT@", "")
     tcmds = parse(tsrc_clean)
